@@ -13,6 +13,7 @@ import (
 
 	"codeberg.org/TauCeti/mangle-go/analysis"
 	"codeberg.org/TauCeti/mangle-go/ast"
+	"codeberg.org/TauCeti/mangle-go/builtin"
 	"codeberg.org/TauCeti/mangle-go/engine"
 	"codeberg.org/TauCeti/mangle-go/factstore"
 	"codeberg.org/TauCeti/mangle-go/parse"
@@ -120,7 +121,7 @@ func c10Mutate(r *rand.Rand, seed []byte) ([]byte, string) {
 	var how []string
 	cur := seed
 	for k := 0; k < n; k++ {
-		switch r.Intn(12) {
+		switch r.Intn(13) {
 		case 0, 1, 2, 3: // token level
 			toks := c10Tokenise(string(cur))
 			if len(toks) == 0 {
@@ -186,6 +187,14 @@ func c10Mutate(r *rand.Rand, seed []byte) ([]byte, string) {
 			nums := []string{"99999999999999999999", "-9223372036854775808", "1e999", "0.0000000000000000000000001", "1.7976931348623157e308", "-0", "00012", "1e", ".e5", "9999999999d", "2024-13-45", "2024-01-15T25:61:61Z", "99999999999999h"}
 			cur = append(append([]byte{}, cur...), []byte(" p("+nums[r.Intn(len(nums))]+").")...)
 			how = append(how, "numbers")
+		case 11: // a built-in function applied to boundary arguments: in a fact head (evaluated by analysis), in a rule body and in a let-transform (evaluated by the engine)
+			cur = append([]byte{}, cur...)
+			for j := 0; j < 3; j++ {
+				call := c10BoundaryCall(r)
+				extra := []string{" bnd(" + call + ").", " bndr(X) :- X = " + call + ".", " bndl(Y) :- bnde(_) |> let Y = " + call + ". bnde(1)."}[r.Intn(3)]
+				cur = append(cur, []byte(extra)...)
+			}
+			how = append(how, "builtin-boundary-call")
 		default: // none
 			how = append(how, "as-is")
 		}
@@ -194,6 +203,55 @@ func c10Mutate(r *rand.Rand, seed []byte) ([]byte, string) {
 		cur = cur[:20000]
 	}
 	return cur, strings.Join(how, "+")
+}
+
+var c10FnArity = map[string]int{}
+
+var c10FnNames = func() []string {
+	var out []string
+	for f := range builtin.Functions {
+		out = append(out, f.Symbol)
+		c10FnArity[f.Symbol] = f.Arity
+	}
+	sort.Strings(out)
+	return out
+}()
+
+var c10BoundaryArgs = []string{"0", "1", "-1", "2", "3", "7", "63", "64", "65", "2147483648", "4294967296", "-4294967296", "4611686018427387904", "9223372036854775807", "-9223372036854775808", "-9223372036854775807",
+	"0.0", "-0.0", "1.5", "1e308", "-1e308", "5e-324", "\"\"", "\"a\"", "\"\\u{10ffff}\"", "b\"\"", "/a", "[]", "[1]", "[1, 2, 3]", "[[]]", "{}", "[/a: 1]", "{/a: 1}", "fn:pair(1, 2)", "fn:list()", "fn:cons(1, [])",
+	"fn:time:parse_rfc3339(\"2024-01-15T00:00:00Z\")", "fn:duration:parse(\"1h\")", "fn:duration:parse(\"-2562047h\")", "X", "_"}
+
+const c10BoundaryInts = 16
+
+// c10BoundaryCall prints a call of a registered built-in function with 0-4 boundary arguments (the declared arity is respected in 4 of 5 calls).
+func c10BoundaryCall(r *rand.Rand) string {
+	f := c10FnNames[r.Intn(len(c10FnNames))]
+	n := r.Intn(5)
+	if ar := c10FnArity[f]; r.Intn(5) != 0 {
+		// mostly the declared arity (variadic: 1-4), so that the call survives the arity check
+		if ar >= 0 {
+			n = ar
+		} else {
+			n = 1 + r.Intn(4)
+		}
+	}
+	args := make([]string, n)
+	pool := c10BoundaryArgs
+	if r.Intn(2) == 0 {
+		pool = c10BoundaryArgs[:c10BoundaryInts] // integers only
+	}
+	for i := range args {
+		args[i] = pool[r.Intn(len(pool))]
+		if r.Intn(12) == 0 {
+			args[i] = c10BoundaryCall2(r)
+		}
+	}
+	return f + "(" + strings.Join(args, ", ") + ")"
+}
+
+func c10BoundaryCall2(r *rand.Rand) string {
+	f := c10FnNames[r.Intn(len(c10FnNames))]
+	return f + "(" + c10BoundaryArgs[r.Intn(len(c10BoundaryArgs))] + ", " + c10BoundaryArgs[r.Intn(len(c10BoundaryArgs))] + ")"
 }
 
 func c10MutateFactFile(r *rand.Rand, seed []byte) ([]byte, string) {
@@ -224,7 +282,11 @@ func c10MutateFactFile(r *rand.Rand, seed []byte) ([]byte, string) {
 	case 4:
 		if len(lines) > 1 {
 			i := 1 + r.Intn(len(lines)-1)
-			lines[i] = []string{"/a%", "/a%zz", "/%41%", "/", "//", "/a b", "%2F", "[", "fn:time:parse_rfc3339(\"x\")", "fn:pair(1)", "\"unterminated", "1 2", "X", "_", "fn:foo(1)", "[-1]", "{/a : }"}[r.Intn(17)]
+			if r.Intn(3) == 0 {
+				lines[i] = c10BoundaryCall(r)
+			} else {
+				lines[i] = []string{"/a%", "/a%zz", "/%41%", "/", "//", "/a b", "%2F", "[", "fn:time:parse_rfc3339(\"x\")", "fn:pair(1)", "\"unterminated", "1 2", "X", "_", "fn:foo(1)", "[-1]", "{/a : }"}[r.Intn(17)]
+			}
 		}
 		how = "bad-column-value"
 	case 5:
@@ -261,6 +323,18 @@ func (c10) Gen(r *rand.Rand, tier string, i int) any {
 		seed = []byte(tprogText(gen.RandTemporalProgram(r), ""))
 	case 2:
 		seed = []byte(gen.RandClauseV(r, gen.ConstOpts{MaxDepth: 2}).Build().String())
+	case 3, 4:
+		// a small well-formed unit whose clauses apply built-in functions to boundary arguments
+		var sb strings.Builder
+		sb.WriteString("bnde(1).")
+		for j := 1 + r.Intn(3); j > 0; j-- {
+			call := c10BoundaryCall(r)
+			sb.WriteString([]string{" bnd(" + call + ").", " bndr(X) :- X = " + call + ".", " bndl(Y) :- bnde(_) |> let Y = " + call + ".", " bndc(Z) :- bnde(Z), " + call + " = Z."}[r.Intn(4)])
+		}
+		if r.Intn(2) == 0 {
+			return c10Case{Kind: "source", Input: []byte(sb.String()), Via: "builtin-boundary-unit"}
+		}
+		seed = []byte(sb.String())
 	default:
 		seed = c10Seeds[r.Intn(len(c10Seeds))]
 	}
